@@ -257,6 +257,9 @@ def os_urandom(ip, n):
 @lib_module('os')
 class _OsMod:
     urandom = os_urandom
+    SEEK_SET = 0
+    SEEK_CUR = 1
+    SEEK_END = 2
 
 
 def _clock(name):
@@ -578,10 +581,26 @@ class BytesIOVal:
         return self.buf
 
     def m_seek(self, ip, pos, whence=0):
-        if ops.const_int(whence) != 0:
+        w = ops.const_int(whence)
+        if w not in (0, 1, 2):
             raise Unsupported('BytesIO.seek whence')
-        self.pos = pos
-        return pos
+        if ops.pytype(pos) not in ('int', 'bool'):
+            ip.ctx.raise_exc('TypeError', 'seek position')
+        # (BytesIO seeks past the end of the buffer without complaint; a negative absolute position raises ValueError)
+        if w == 0:
+            new = pos
+        elif w == 1:
+            new = ops.binop('Add', self.pos, pos, ip.ctx)
+            c = ops.compare('Lt', new, 0, ip.ctx)
+            new = ops.ite(c, 0, new) if not isinstance(c, bool) else (0 if c else new)
+        else:
+            new = ops.binop('Add', ops.bytes_len(self.buf), pos, ip.ctx)
+            c = ops.compare('Lt', new, 0, ip.ctx)
+            new = ops.ite(c, 0, new) if not isinstance(c, bool) else (0 if c else new)
+        if w == 0 and ip.ctx.branch(ops.compare('Lt', new, 0, ip.ctx)):
+            ip.ctx.raise_exc('ValueError', 'negative seek value')
+        self.pos = new
+        return new
 
     def m_close(self, ip):
         return None
